@@ -7,6 +7,9 @@ import (
 
 	"golang.org/x/tools/go/ssa"
 
+	"verif/internal/absint"
+	"verif/internal/bdd"
+	"verif/internal/dom"
 	"verif/internal/ev"
 	"verif/internal/load"
 	"verif/internal/rules"
@@ -56,6 +59,55 @@ func c12(cx *Ctx, r *ev.Report) {
 	}
 	cfg := &rules.PanicCfg{P: cx.P, NonNilFieldOfRecv: map[string]bool{".Memory": true}, Roots: roots, Fns: fns}
 	sites := cfg.Sites()
+	// value-based verdicts from the summaries (all arms, the Step summary with
+	// the overlay's methods probed, the mode-0 runs, the accessors)
+	type vagg struct {
+		ok, bad int
+		witness string
+	}
+	vals := map[ssa.Instruction]*vagg{}
+	addLog := func(m map[ssa.Instruction]*absint.SiteLog) {
+		for in, l := range m {
+			a := vals[in]
+			if a == nil {
+				a = &vagg{}
+				vals[in] = a
+			}
+			a.ok += l.OK
+			a.bad += l.Bad
+			if a.witness == "" {
+				a.witness = l.Witness
+			}
+		}
+	}
+	for _, a := range cx.Arms() {
+		addLog(a.Sites)
+	}
+	if sa := cx.stepAnalysis(); sa != nil && sa.impl != nil {
+		addLog(sa.impl.Sites)
+		for _, m := range sa.im0Sites {
+			addLog(m)
+		}
+	}
+	for _, tm := range [][2]string{{"DumbMemory", "Get"}, {"DumbMemory", "Set"}, {"DumbIO", "In"}, {"DumbIO", "Out"}, {"MapMemory", "Get"}, {"MapMemory", "Set"}} {
+		m := cx.P.Method(load.ModulePath, tm[0], tm[1])
+		if m == nil {
+			continue
+		}
+		c := dom.NewCtx()
+		in := absint.New(cx.P, c, dom.NewTrace(c))
+		in.Sites = map[ssa.Instruction]*absint.SiteLog{}
+		var args []absint.Value
+		for i, p := range m.Params {
+			args = append(args, in.SymbolicValue(p.Type(), fmt.Sprintf("arg%d", i)))
+		}
+		// precondition of the property: a non-nil MapMemory
+		if mp, ok := args[0].(*absint.Map); ok {
+			mp.Nil = bdd.False
+		}
+		in.Run(m, args, absint.NewState())
+		addLog(in.Sites)
+	}
 	byKind := map[string]int{}
 	byRule := map[string]int{}
 	type agg struct {
@@ -74,13 +126,19 @@ func c12(cx *Ctx, r *ev.Report) {
 			obl[key] = a
 		}
 		a.n++
-		if s.Discharged {
+		va := vals[s.Instr]
+		switch {
+		case va != nil && va.bad > 0 && (s.Kind == "index" || s.Kind == "nil-deref" || s.Kind == "nil-invoke" || s.Kind == "map-update") && !strings.HasPrefix(s.By, "NIL-GUARD: precondition"):
+			a.det = append(a.det, fmt.Sprintf("%s: %s (%s) in %s: %s", cx.P.Pos(s.Instr.Pos()), s.What, s.Kind, s.Fn, va.witness))
+		case s.Discharged:
 			byRule[strings.SplitN(s.By, ":", 2)[0]]++
-		} else {
-			a.det = append(a.det, fmt.Sprintf("%s: %s (%s) in %s can panic: %s", cx.P.Pos(s.Instr.Pos()), s.What, s.Kind, s.Fn, s.Why))
+		case va != nil && va.ok > 0 && va.bad == 0:
+			byRule["SUMMARY-VALUE"]++
+		default:
+			a.det = append(a.det, fmt.Sprintf("%s: %s (%s) in %s can panic: %s (and no summary reaches it with a value-based verdict)", cx.P.Pos(s.Instr.Pos()), s.What, s.Kind, s.Fn, s.Why))
 		}
 	}
-	rule := "NO-PANIC(site): every instruction below Step/Run and in the bundled accessors that can panic in Go (index, slice, nil dereference, nil interface call, nil-map insert, unchecked type assertion, division, explicit panic, negative make) is discharged by a guard-dominance, by-construction, by-type or precondition rule"
+	rule := "NO-PANIC(site): every instruction below Step/Run and in the bundled accessors that can panic in Go (index, slice, nil dereference, nil interface call, nil-map insert, unchecked type assertion, division, explicit panic, negative make) is discharged by a guard-dominance, by-construction, by-type or precondition rule, or by SUMMARY-VALUE: in every summary that executes it (all 1786 decoder specialisations, the Step summary with the overlay memory's methods probed for arbitrary arguments, the accessors) its failing condition is unsatisfiable under the path predicate"
 	keys := make([]string, 0, len(obl))
 	for k := range obl {
 		keys = append(keys, k)
